@@ -301,6 +301,13 @@ fn main() {
         series.push((xs, t, false, 2));
     }
 
+    // long histories (see c01.rs): the cached extreme expires hundreds of times, counters run for hundreds of steps
+    for _ in 0..(if thorough { 8 } else { 2 }) {
+        let len = rng.range(300, 600) as usize;
+        let (xs, t) = gen_::series(&mut rng, len);
+        series.push((xs, t.replace("style=", "style=long_"), false, 2));
+    }
+
     let mut sel = Rng::new(em.args.seed ^ 0xC03);
     for (xs, stags, small, level) in series.iter() {
         let level = *level;
